@@ -424,6 +424,51 @@ namespace vf_coll
             frg.check("drain");
         }
 
+        // reserve(node_size, capacity): "inserts more memory on the free list for nodes of given size", taken from the arena (which
+        // grows if it has to). Contract: capacity below next_capacity(); here it also fits a fresh block with padding and fences.
+        void do_reserve(unit& u)
+        {
+            P&          p = *u.obj;
+            std::size_t s = r.range(1, p.max_node_size());
+            // upper bound of what one node of that bucket occupies: log2 buckets round up, lists have a minimum node size, fences
+            std::size_t node_ub = 2 * std::max<std::size_t>(s, 16) + 64;
+            std::size_t cap     = r.range(4, 12) * node_ub;
+            if (cap + 128 > p.next_capacity() / 2)
+                return;
+            op("reserve size=%zu capacity=%zu", s, cap);
+            auto pc0 = p.pool_capacity_left(s);
+            auto ac0 = p.capacity_left();
+            auto acq0 = u.src->acquisitions();
+            try
+            {
+                p.reserve(s, cap);
+            }
+            catch (out_of_memory&)
+            {
+                u.src->check();
+                count("out_of_memory_thrown");
+                flag("exhausted");
+                return;
+            }
+            u.src->check();
+            auto pc1  = p.pool_capacity_left(s);
+            bool grew = u.src->acquisitions() != acq0;
+            if (grew)
+                flag("grew");
+            std::size_t expect = (cap - 64) / node_ub;
+            if (pc1 < pc0 + expect)
+                viol("C18", key("C18", "reserve-delta"),
+                     "reserve(%zu, %zu) took the memory from the arena (capacity_left %zu -> %zu%s) but pool_capacity_left(%zu) went %zu -> %zu; at least %zu more "
+                     "nodes fit into the reserved bytes",
+                     s, cap, ac0, p.capacity_left(), grew ? ", new block" : "", s, pc0, pc1, expect);
+            if (!grew && (ac0 - p.capacity_left() < cap || ac0 - p.capacity_left() > cap + 96))
+                viol("C18", key("C18", "reserve-arena-delta"), "reserve(%zu, %zu) changed the arena's capacity_left %zu -> %zu", s, cap, ac0, p.capacity_left());
+            count("reserves");
+            flag("reserve");
+            u.cap_empty.clear(); // the reservation moved arena memory into one bucket, which is legitimate
+            frg.check("reserve");
+        }
+
         void do_cycle(unit& u)
         {
             P& p = *u.obj;
@@ -537,7 +582,7 @@ namespace vf_coll
             bool used = r.chance(60);
             op("move-assign onto %s target", used ? "used" : "fresh");
             // (a target built for another maximum node size: the number of pools must move along with the pools)
-            auto t = fresh(placement::heap, r.chance(50) ? 0 : r.range(8, maxn));
+            auto t = fresh(placement::heap, r.chance(50) ? 0 : r.range(std::min<std::size_t>(8, maxn), maxn));
             if (used)
             {
                 P&  tp = *t->obj;
@@ -639,7 +684,7 @@ namespace vf_coll
         void setup()
         {
             member = r.chance(25);
-            maxn   = r.chance(50) ? r.range(8, 40) : r.range(8, 130);
+            maxn   = r.chance(8) ? r.range(1, 7) : r.chance(50) ? r.range(8, 40) : r.range(8, 130); // (1..7: below the lists' own minimum node size)
             // documented requirement: max_node_size < block_size / number of pools; stay clear of undocumented minimums
             // (the list array itself and, for small nodes, a chunk header per reservation come out of the same block)
             for (;;)
@@ -681,6 +726,8 @@ namespace vf_coll
             }
             else if (x < 982)
                 do_drain(u);
+            else if (x < 987)
+                do_reserve(u);
             else if (x < 992)
                 do_cycle(u);
             else if (units.size() > 1)
